@@ -389,6 +389,52 @@ int main(int argc, char **argv) {
         wp.push_back(std::move(o));
       }
     jf["writes_params"] = std::move(wp);
+    // raw edges for R-CONSTSRC: every store through / pass-on of a pointer derived from a parameter
+    if (!F.isDeclaration()) {
+      json::Array pe;
+      jf["sret"] = F.arg_size() > 0 && F.hasParamAttribute(0, Attribute::StructRet);
+      auto edge = [&](const Value *ptr, const char *kind, const Instruction *I, const std::string &callee, int k) {
+        for (auto *b : baseOf(ptr))
+          if (auto *a = dyn_cast<Argument>(b))
+            if (a->getParent() == &F) {
+              json::Object o;
+              o["arg"] = (int64_t)a->getArgNo();
+              o["kind"] = kind;
+              o["line"] = (int64_t)instLine(I);
+              if (!callee.empty())
+                o["callee"] = callee;
+              if (k >= 0)
+                o["k"] = (int64_t)k;
+              pe.push_back(std::move(o));
+            }
+      };
+      for (auto &I : instructions(F)) {
+        if (auto *st = dyn_cast<StoreInst>(&I))
+          edge(st->getPointerOperand(), "store", &I, "", -1);
+        else if (isa<AtomicRMWInst>(I) || isa<AtomicCmpXchgInst>(I))
+          edge(I.getOperand(0), "store", &I, "", -1);
+        else if (auto *mi = dyn_cast<MemIntrinsic>(&I))
+          edge(mi->getRawDest(), "store", &I, "", -1);
+        else if (auto *cb = dyn_cast<CallBase>(&I)) {
+          if (isa<DbgInfoIntrinsic>(I))
+            continue;
+          const Function *cal = calleeOf(cb);
+          if (cal && cal->isIntrinsic())
+            continue;
+          for (unsigned k = 0; k < cb->arg_size(); ++k) {
+            if (!cb->getArgOperand(k)->getType()->isPointerTy())
+              continue;
+            if (!cal)
+              edge(cb->getArgOperand(k), "indirect", &I, "", (int)k);
+            else if (cal->isDeclaration() || k >= cal->arg_size())
+              edge(cb->getArgOperand(k), externReadonly(cal, k) ? "extern-ro" : "extern", &I, cal->getName().str(), (int)k);
+            else
+              edge(cb->getArgOperand(k), "pass", &I, cal->getName().str(), (int)k);
+          }
+        }
+      }
+      jf["param_edges"] = std::move(pe);
+    }
     json::Array callees;
     int indirect = 0;
     json::Array fnaddr; // functions whose address is taken here
